@@ -76,7 +76,7 @@ CLAIMED = {
     "C09": dict(
         text="PARTIAL (very thin). Data-flow check (MIR->SMT path enumeration, feasibility by z3 + cvc5) of Parser::parse_subcommand: on every feasible path the child parser and the child matcher are both created "
              "from the command returned by _build_subcommand(name), the child parser parses into the child's own matcher, the child's matches are attached to the parent matcher exactly once, and a child "
-             "error is returned iff errors are not ignored. One pass of each loop of Command::_propagate_global_args: a subcommand is skipped iff it is named help AND the help subcommand is autogenerated, "
+             "error is returned unless errors are ignored and it is a real error (a help/version request is always handed up). One pass of each loop of Command::_propagate_global_args: a subcommand is skipped iff it is named help AND the help subcommand is autogenerated, "
              "globals are cloned into a subcommand iff it does not define the id. The candidate closures of subcommand inference (see C08). One iteration of Parser::parse: a token is tested for being a subcommand only with subcommand precedence or outside an option's/positional's values. Exact-name recognition, external subcommands and how matches of globals are copied between levels are NOT decided.",
         note="All callees opaque; argument identity is tracked by the keys of opaque call results; realised natively by a 3-level command with same-named arguments.",
         ref="2 C09", technique="own MIR->SMT translation: call data-flow on paths, infeasibility of violating paths by z3 + cvc5, native replay"),
